@@ -31,6 +31,13 @@ def mk_graph(n, edges, rng=None, style=None):
         m[(a, b)] = m.get((a, b), 0) + k
     return {"n": n, "names": names, "edges": sorted([a, b, k] for (a, b), k in m.items())}
 
+def mk_graph_like(G, edges):
+    """same vertex names as G, the given edge list (parallel entries merged)."""
+    m = {}
+    for i, j, k in edges:
+        a, b = min(i, j), max(i, j); m[(a, b)] = m.get((a, b), 0) + k
+    return {"n": G["n"], "names": list(G["names"]), "edges": sorted([a, b, k] for (a, b), k in m.items())}
+
 def matrix(G):
     n = G["n"]; M = [[0] * n for _ in range(n)]
     for a, b, k in G["edges"]:
